@@ -828,6 +828,8 @@ class ModelMixin2:
             return [(self.exc('IndexError', st, node, 'tuple index out of range'), st)]
         if isinstance(c, Ref) and c.kind == 'list':
             le: ListE = st.get(c.sym)
+            if isinstance(i, Const) and i.v == -1 and le.kind != 'lit' and c.sym in (st.mon.get('lastapp') or {}):
+                return [(st.mon['lastapp'][c.sym], st)]
             if isinstance(i, Const) and isinstance(i.v, int):
                 need = i.v + 1 if i.v >= 0 else -i.v
                 if le.kind == 'lit':
